@@ -86,6 +86,26 @@ class NumericLiterals(_Sym):
             return r == va / 100
         if f in ('dec', 'dot'):
             k = p['b']
+            fx = getattr(r, 'fx', None)
+            if env.symbolic and fx is not None and fx[0] == 'addq':
+                # the tree computed fl(i + fl(x / y)): under the fl abstraction equality with the correctly rounded
+                # N / 10^k is undecidable either way, so - when i, x, y are the two digit strings' values and 10^k - the
+                # claim is posed exactly in QF_FP over bit-vector copies of the digits (Int2BV bridging returns unknown)
+                rm, F = z3.RNE(), z3.Float64()
+                if E.cur().must(z3.And(fx[1] == zint(va), fx[2] == zint(vb), fx[3] == 10 ** k)):
+                    def bvval(cps):
+                        v = z3.BitVecVal(0, 64)
+                        for c in cps:
+                            dg = z3.BitVecVal(9, 64)
+                            for j in range(8, -1, -1):
+                                dg = z3.If(zcp(c) == 48 + j, z3.BitVecVal(j, 64), dg)
+                            v = v * 10 + dg
+                        return v
+                    ba, bb = bvval(cps_of(inp['a'])), bvval(cps_of(inp['b']))
+                    fp = lambda t: z3.fpSignedToFP(rm, t, F)
+                    fd = z3.FPVal(float(10 ** k), F)
+                    got = z3.fpAdd(rm, fp(ba), z3.fpDiv(rm, fp(bb), fd))
+                    return mkbool(z3.fpEQ(got, z3.fpDiv(rm, fp(ba * (10 ** k) + bb), fd)))
             return r == (va * 10 ** k + vb) / 10 ** k
         from ..values import concretize_int
         kb = concretize_int(vb, 0, 29, 'exponent') if env.symbolic else vb
